@@ -53,6 +53,9 @@ func smallCap(r *mc.Run) {
 	// full alphabet, deviation bounded, from a store already holding cap clients
 	r.Explore(mc.Config{Name: "cap3/dev", Bound: mc.Pick(r, 4, 5)},
 		tsskit.Program(tsskit.Params{Clients: cl, Steps: mc.Pick(r, 7, 9)}, nil))
+	if r.Mine() || r.ShardN == 1 {
+		eraCrossing(r)
+	}
 	r.Extra["rule"] = "cap-3 store, five client identities: all histories of 6 (8) steps with free client and receive-time order choices and <=2 (3) other deviations, canonical-state pruned; the C06 alphabet within 4 (5) deviations, also from stores where one client's eight-slot record has wrapped (8, 9, 11 prior exchanges); every transition judged by the eviction rule and the structural invariants"
 }
 
@@ -159,4 +162,62 @@ func racePass(r *mc.Run) {
 		r.Fail("race", f.Sig, f.Msg, nil)
 	}
 	r.Sample(map[string]any{"goroutines": 16, "ops_each": ops, "clients": 4})
+}
+
+// eraCrossing: a full cap-3 store across the NTP era rollover of 2036. The
+// store orders clients by raw 32-bit seconds; the oracle here uses real time.
+func eraCrossing(r *mc.Run) {
+	if r.Replaying() {
+		return
+	}
+	rollover := time.Date(2036, 2, 7, 6, 28, 16, 0, time.UTC)
+	s := tsskit.NewSys()
+	s.MaxRx = rollover.Add(-10 * time.Second)
+	req := ntp.Packet{}
+	req.SetVersion(4)
+	req.SetMode(ntp.ModeClient)
+	last := map[string]time.Time{}
+	h := func(c string, at time.Time) (served bool) {
+		pre := server.VerifSnapshotTSS()
+		s.FastH(c, req, at)
+		post := server.VerifSnapshotTSS()
+		r.Evals++
+		r.Distinct++
+		have := func(sn server.VerifTSSSnapshot, k string) bool {
+			for _, it := range sn.Items {
+				if it.Key == k {
+					return true
+				}
+			}
+			return false
+		}
+		if len(pre.Items) == s.Cap && !have(pre, c) {
+			// full store, newcomer: by real time, the least recently active client
+			var oldest string
+			for k, t := range last {
+				if have(pre, k) && (oldest == "" || t.Before(last[oldest])) {
+					oldest = k
+				}
+			}
+			for k := range last {
+				if have(pre, k) && !have(post, k) && k != oldest {
+					r.Fail("era", "era-crossing:evicted-not-least-recently-active", fmt.Sprintf("request of %s at %v (after the 2036 era rollover) evicted %s (last active %v) although %s was last active %v", c, at.UTC(), k, last[k].UTC(), oldest, last[oldest].UTC()), "era")
+				}
+			}
+			if !have(post, c) && !last[oldest].After(at) {
+				r.Fail("era", "era-crossing:recent-newcomer-served-statelessly", fmt.Sprintf("full store, request of %s at %v is more recent than every client on record (oldest %s at %v) but was not admitted", c, at.UTC(), oldest, last[oldest].UTC()), "era")
+			}
+		}
+		if have(post, c) {
+			last[c] = at
+		}
+		return have(post, c)
+	}
+	h("P", rollover.Add(-3*time.Second))
+	h("Q", rollover.Add(-2*time.Second))
+	h("R", rollover.Add(1*time.Second)) // first client of era 1
+	h("X", rollover.Add(2*time.Second))
+	h("Y", rollover.Add(3*time.Second))
+	h("Z", rollover.Add(4*time.Second))
+	server.VerifResetTSS()
 }
